@@ -218,8 +218,8 @@ def check(case):
 def _main(tier):
     ex = excluded_hazards(ID)
     skip = bool({HAZ_ARG, HAZ_OPERAND} & ex)
-    return st.tuples(G.statement(), st.booleans()).flatmap(
-        lambda t: G.layout(t[0] + ([list(G.SEMI)] if t[1] else []), comments=0, inner=False)).map(lambda laid: {'lex': laid, 'skip_hazards': skip})
+    return st.tuples(st.booleans(), G.predrawn_layout(0), G.statement()).flatmap(
+        lambda t: G.layout(t[2] + ([list(G.SEMI)] if t[0] else []), comments=0, inner=False, raw=t[1][0])).map(lambda laid: {'lex': laid, 'skip_hazards': skip})
 
 
 def _exprs(tier):
@@ -237,7 +237,7 @@ def _exprs(tier):
         return W('stmt', lex, type='SELECT')
     stmt = st.builds(mk, st.lists(rich, min_size=1, max_size=4), st.one_of(st.none(), G.cond(1), G.cond(2)),
                      st.sampled_from([None, None, 'GROUP BY', 'ORDER BY', 'LIMIT']))
-    return stmt.flatmap(lambda lex: G.layout(lex, comments=0, inner=False)).map(lambda laid: {'lex': laid})
+    return st.tuples(G.predrawn_layout(0), stmt).flatmap(lambda t: G.layout(t[1], comments=0, inner=False, raw=t[0][0])).map(lambda laid: {'lex': laid})
 
 
 LEGS = [Leg('exprs', check=check, strategy=_exprs, examples={'quick': 5000, 'thorough': 120000}),
